@@ -33,7 +33,9 @@ CONSTANTS Deviations,     \* subset of AllDevs
 
 AllDevs == {"proto_opset_stale",    \* convert_version(ModelProto) copies back the graph only
             "proto_arg_mutated",    \* deserialisation shares TensorProtos: renaming writes through
-            "tensor_meta_dup"}      \* serialising a proto-backed tensor appends its metadata_props again
+            "tensor_meta_dup",      \* serialising a proto-backed tensor appends its metadata_props again
+            "capi_fallback_drops_metadata"}  \* convert_version(fallback=True) through the ONNX C API: the graph comes back
+                                             \* without metadata_props, attribute docs and docs of inputs / value_info
 
 -----------------------------------------------------------------------------
 (* carriers *)
@@ -59,9 +61,12 @@ GraphLevel == Carriers \ ModelLevel
 OpsetCarriers == {"opset_unused", "opset_main", "opset_custom", "opset_local"}
 TensorBacked == {"inits", "init_payload", "init_doc", "init_meta"}   \* live inside TensorProtos
 
-InPlaceApis == {"fold_constants", "fold_constants_infer", "remove_unused_nodes", "remove_unused_functions", "convert_same", "convert_up"}
+ConvertApis == {"convert_same", "convert_up",
+                "convert_down_fb",   \* convert_version(18 -> 17, fallback=True): target below source -> ONNX C API
+                "convert_old_fb"}    \* convert_version(17 -> 18, fallback=True): source below the native range -> ONNX C API
+InPlaceApis == {"fold_constants", "fold_constants_infer", "remove_unused_nodes", "remove_unused_functions"} \cup ConvertApis
 AllApis == {"optimize", "optimize_noinline", "rewrite", "rewrite_empty", "fold_constants", "fold_constants_infer", "remove_unused_nodes",
-            "remove_unused_functions", "convert_same", "convert_up", "replace_functions"}
+            "remove_unused_functions", "replace_functions"} \cup ConvertApis
 
 Dup(t) == IF t = "v" THEN "vv" ELSE IF t = "vv" THEN "vvv" ELSE t
 
@@ -105,6 +110,8 @@ Pipeline(api) ==
     [] api = "remove_unused_functions" -> <<"RmFuncs">>
     [] api = "convert_same" -> <<"Inline", "RmFuncs", "RmOpsets", "ConvertSame", "RmNodes", "RmFuncs", "RmOpsets">>
     [] api = "convert_up" -> <<"Inline", "RmFuncs", "RmOpsets", "ConvertUp", "RmNodes", "RmFuncs", "RmOpsets">>
+    [] api \in {"convert_down_fb", "convert_old_fb"} ->
+                             <<"Inline", "RmFuncs", "RmOpsets", "ConvertCApi", "RmNodes", "RmFuncs", "RmOpsets">>
     [] api = "replace_functions" -> <<"AddFuncs", "Inline", "RmOpsets">>
 
 FoldAll(m) == [m EXCEPT !["nodes"] = "x", !["inits"] = "x",
@@ -115,8 +122,9 @@ FoldStruct(m, feat) == [m EXCEPT !["nodes"] = IF {"symdims", "constif"} \cap fea
                                  !["inits"] = IF "constif" \in feat THEN "x" ELSE @,
                                  !["shadow"] = "none"]
 \* a rewrite rule fires while the constant Ifs (and their shadowing initializers) are still there
+CApiDropped == {"node_meta", "attr_doc", "io_meta", "vi_meta", "graph_meta"}
 RuleFiresOnShadow(m, feat) == {"rewritable", "constif"} \subseteq feat /\ m["shadow"] = "v"
-Apply(pass, m, feat) ==
+Apply(pass, m, feat, devs) ==
   CASE pass = "Inline" -> IF m["callsite"] = "v" /\ m["fnF"] # "none"
                           THEN [m EXCEPT !["callsite"] = "none", !["fnF"] = "none", !["nodes"] = "x"] ELSE m
     [] pass = "AddFuncs" -> [m EXCEPT !["fnF"] = IF "call" \in feat THEN "v" ELSE @,
@@ -145,6 +153,20 @@ Apply(pass, m, feat) ==
     [] pass = "OutputFix" -> IF "init_io" \in feat
                              THEN [m EXCEPT !["nodes"] = "x", !["inits"] = "x", !["io_sig"] = "x"] ELSE m
     [] pass = "ConvertUp" -> [m EXCEPT !["opset_main"] = "x"]
+    \* _ConvertVersionPassRequiresInline, C-API branch: initializers become inputs, the proto goes through
+    \* onnx.version_converter (which also infers shapes), the graph is read back, initializers are
+    \* re-attached and the user inputs restored BY POSITION (io_sig and the initializers are not needed to change).
+    \* Deviation: the graph that comes back has lost metadata_props and some doc strings.
+    [] pass = "ConvertCApi" ->
+         LET c == [m EXCEPT !["opset_main"] = "x",
+                            !["value_info"] = IF @ = "none" THEN "x" ELSE @,
+                            !["nodes"] = IF {"foldable", "rewritable", "subgraph", "constif"} \cap feat # {} THEN "x" ELSE @]
+         IN IF "capi_fallback_drops_metadata" \in devs
+            THEN [x \in Carriers |-> IF x \in CApiDropped THEN "none"
+                                      \* (main-graph initializers are re-attached from the original; a branch-owned one comes
+                                      \*  back from the C API without its doc_string)
+                                      ELSE IF x = "inits" /\ "subgraph" \in feat /\ m["init_doc"] = "v" THEN "x" ELSE c[x]]
+            ELSE c
     [] OTHER -> m           \* Dedup, CSE, NameFix, ConvertSame: nothing to do on the host model
 \* carriers of the caller's TensorProtos a pass writes *in place* (Value.name setter -> TensorProto.name)
 \* (OutputFixPass renaming the input+output initializer; If-inlining / NameFixPass renaming a shadowing branch initializer)
@@ -153,8 +175,8 @@ WritesInPlace(pass, m, feat) == IF \/ (pass = "OutputFix" /\ "init_io" \in feat)
                                    \/ (pass = "Rewrite" /\ RuleFiresOnShadow(m, feat))
                                 THEN {"inits"} ELSE {}
 
-RECURSIVE RunAll(_, _, _)
-RunAll(ps, m, feat) == IF ps = <<>> THEN m ELSE RunAll(Tail(ps), Apply(Head(ps), m, feat), feat)
+RECURSIVE RunAll(_, _, _, _)
+RunAll(ps, m, feat, devs) == IF ps = <<>> THEN m ELSE RunAll(Tail(ps), Apply(Head(ps), m, feat, devs), feat, devs)
 
 -----------------------------------------------------------------------------
 (* the state machine *)
@@ -205,7 +227,7 @@ RunPass == /\ pc = "passes"
            /\ w["impl"].todo # <<>>
            /\ LET p == Head(w["impl"].todo) IN
               w' = [k \in Variants |->
-                      [w[k] EXCEPT !.irm = Apply(p, @, Feat),
+                      [w[k] EXCEPT !.irm = Apply(p, @, Feat, DevsOf(k)),
                                    !.todo = Tail(@),
                                    !.arg = [c \in Carriers |-> IF c \in WritesInPlace(p, w[k].irm, Feat) \cap w[k].shared
                                                                THEN "x" ELSE w[k].arg[c]]]]
@@ -214,7 +236,7 @@ RunPass == /\ pc = "passes"
 Serialize == /\ pc = "passes"
              /\ w["impl"].todo = <<>>
              /\ w' = [k \in Variants |-> [w[k] EXCEPT !.newp = Ser(w[k].irm, DevsOf(k))]]
-             /\ pc' = IF api \in {"convert_same", "convert_up"} THEN "graph_clear"
+             /\ pc' = IF api \in ConvertApis THEN "graph_clear"
                       ELSE IF api \in InPlaceApis THEN "clear" ELSE "return_new"
              /\ UNCHANGED <<api, on, dense, out>>
 ReturnNew == /\ pc = "return_new"
@@ -260,9 +282,9 @@ Result(k) == IF w[k].ret = "new" THEN w[k].newp ELSE w[k].arg
 \* identity api: compared modulo the serde normal form
 ResultCmp(k) == IF api = "rewrite_empty" THEN N(Result(k), DevsOf(k)) ELSE Result(k)
 \* the IR entry point, serialised
-IrResult(k) == Ser(RunAll(Pipeline(api), Deser(M), Feat), DevsOf(k))
+IrResult(k) == Ser(RunAll(Pipeline(api), Deser(M), Feat, DevsOf(k)), DevsOf(k))
 \* carriers some pass of the pipeline needs to change
-Need == {c \in Observed : RunAll(Pipeline(api), M, Feat)[c] # M[c]}
+Need == {c \in Observed : RunAll(Pipeline(api), M, Feat, {})[c] # M[c]}       \* (design-level passes)
 
 ArgMut(k) == IF api \in InPlaceApis THEN {} ELSE {c \in Observed : w[k].arg[c] # M[c]}
 Touched(k) == {c \in Observed : IrResult(k)[c] # N(M, DevsOf(k))[c]}
